@@ -283,7 +283,7 @@ class Locale:
 
         for abbreviation in abbreviations:
             abbreviation_string += (
-                "(?<! " + abbreviation[:-1] + ")"
+                "(?<! " + re.escape(abbreviation[:-1]) + ")"
             )  # negative lookbehind
         if self.shortname in ["fi", "cs", "hu", "de", "da"]:
             for digit_abbreviation in digit_abbreviations:
